@@ -69,3 +69,52 @@ Example C23_example :
     [[v_int]; [v_int; v_flt]; [v_int; v_flt]; [v_int; v_flt]; [v_int; v_flt];
      [v_flt]; [v_int; v_flt]; [v_flt]; []; [v_flt]; []].
 Proof. vm_compute. repeat split; repeat constructor; discriminate. Qed.
+
+(* ---- layering on C24: the same histories with the durable side modelled at the LMDB level
+   (sorted byte-key sub-db, Duror Io functions with their hidden ordinal suffixes), queue q bound
+   to the Hold key [name q].  Hypotheses: distinct queues have distinct, independent keys (C24's
+   [indep2]: no key followed by '.' starts another) and fewer than 2^128-1 values are ever written
+   ([qbudget]).  [drun] then yields exactly the history [qrun] yields over the dictionary
+   (Proofs/DurqLayer.v, by C24's step refinement), hence: ---- *)
+From Hio Require Import Proofs.DurqLayer.
+
+Theorem C23_durq_fifo_lmdb : forall pyeq name (Q : N -> Prop) ops,
+  (forall a b, Q a -> Q b -> name a = name b -> a = b) ->
+  (forall a b, Q a -> Q b -> a <> b -> indep2 (name a) (name b)) ->
+  Forall (fun qo => Q (fst qo)) ops ->
+  (qbudget pyeq false store0 queues0 ops <= maxsuffix)%N ->
+  run_ok ops (drun pyeq name false [] queues0 ops) (ref_run pyeq false (fun _ => []) ops).
+Proof.
+  intros pyeq name Q ops Hi Hd HQ HB.
+  rewrite (layer_run pyeq name Q Hi Hd false ops 0%N store0 [] queues0); auto.
+  - apply C23_durq_fifo.
+  - apply RL_init.
+Qed.
+Print Assumptions C23_durq_fifo_lmdb.
+
+Theorem C23_dusq_oset_lmdb_partial : forall pyeq name (Q : N -> Prop) ops,
+  (forall a b, pyeq a b = true <-> a = b) ->
+  Forall (fun qo => wf_op (snd qo)) ops ->
+  (forall a b, Q a -> Q b -> name a = name b -> a = b) ->
+  (forall a b, Q a -> Q b -> a <> b -> indep2 (name a) (name b)) ->
+  Forall (fun qo => Q (fst qo)) ops ->
+  (qbudget pyeq true store0 queues0 ops <= maxsuffix)%N ->
+  run_ok ops (drun pyeq name true [] queues0 ops) (ref_run pyeq true (fun _ => []) ops).
+Proof.
+  intros pyeq name Q ops E W Hi Hd HQ HB.
+  rewrite (layer_run pyeq name Q Hi Hd true ops 0%N store0 [] queues0); auto.
+  - now apply C23_dusq_oset_partial.
+  - apply RL_init.
+Qed.
+Print Assumptions C23_dusq_oset_lmdb_partial.
+
+(* the Hold keys used by the correspondence harness satisfy the hypotheses *)
+Example C23_names_example :
+  let name := fun q => nth (N.to_nat q) ([[113]; [113; 113]; [116; 111; 112; 46; 113]]%N : list bytes) [] in
+  forall a b, (a < 3)%N -> (b < 3)%N -> a <> b -> name a <> name b /\ indep2 (name a) (name b).
+Proof.
+  intros name a b Ha Hb Hne.
+  assert (Ca : (a = 0 \/ a = 1 \/ a = 2)%N) by lia. assert (Cb : (b = 0 \/ b = 1 \/ b = 2)%N) by lia.
+  destruct Ca as [Ea|[Ea|Ea]], Cb as [Eb|[Eb|Eb]]; subst; try congruence; unfold indep2; vm_compute;
+    (split; [discriminate|split; reflexivity]).
+Qed.
